@@ -100,6 +100,9 @@ def r03_7(ctx):
 
 
 def run(ctx):
+    ctx.rule("R03.12", "the drivers feed the tokenizer until it is done, so where a chunk ends relative to a script end tag does not matter")
+    ctx.guard("R03.12", "driver/html", lambda: tr.driver_feeds_until_done(ctx, "R03.12", "html_driver", "::loop_until_done", "html5ever driver loop_until_done"))
+    ctx.guard("R03.12", "driver/xml", lambda: tr.driver_feeds_until_done(ctx, "R03.12", "xml_driver", "XmlParser<Sink>[TendrilSink<tendril::fmt::UTF8>]::process", "xml5ever driver process"))
     ctx.rule("R03.10", "a run of characters taken from the queue is only appended to what the state collects: nothing per run (its length depends on the chunking)")
     for _w in ("html", "xml"):
         ctx.guard("R03.10", "runs/" + _w, lambda _w=_w: tr.runs_only_concatenate(ctx, "R03.10", _w))
